@@ -274,7 +274,7 @@ def check_kernel(ctx, KE, fam, mode, backend, outputs=OUT, rule="R3-statistics")
     from .report import limit
     key = kernel_key(fam, mode, backend)
     try:
-        with limit(float(os.environ.get("VERIF_KERNEL_BUDGET_S", "240")), key):
+        with limit(float(os.environ.get("VERIF_KERNEL_BUDGET_S", "150")), key):
             return _check_kernel(ctx, KE, fam, mode, backend, outputs, rule)
     except Unknown as ex:
         node = KE.repo.get(key)
